@@ -175,6 +175,10 @@ def observe_cp(case: Dict[str, Any], prop: str, whatif: bool = False, breakdown:
                 except Exception as ex:
                     rec["err"] = hta.exc_str(ex)
                 obs["rw"].append(rec)
+            # call history: the first graph is read again AFTER other graphs (the what-if copies) were analysed in the same process
+            obs["p2"] = project_path(cp)
+    if "p2" not in obs:
+        obs["p2"] = obs["p"]
     return obs
 
 
